@@ -855,6 +855,8 @@ pub struct Scenario {
     /// the incarnation (None: clean exit after the writes)
     pub incs: Vec<(usize, Option<u32>)>,
     pub chunks: usize,
+    /// 0: every word of publication k carries k; 1: consecutive publications differ in the status word only
+    pub family: u8,
 }
 
 impl Scenario {
@@ -865,6 +867,7 @@ impl Scenario {
             "init_bytes": match &self.init { Init::Bytes(b) => serde_json::json!(b), _ => serde_json::Value::Null },
             "incarnations": self.incs.iter().map(|(k, c)| serde_json::json!({"writes": k, "crash_after_event": c})).collect::<Vec<_>>(),
             "record_chunks": self.chunks,
+            "record_family": self.family,
         })
     }
     pub fn from_json(v: &serde_json::Value) -> Scenario {
@@ -879,6 +882,7 @@ impl Scenario {
             init,
             incs: v["incarnations"].as_array().unwrap().iter().map(|i| (i["writes"].as_u64().unwrap() as usize, i["crash_after_event"].as_u64().map(|c| c as u32))).collect(),
             chunks: v["record_chunks"].as_u64().unwrap() as usize,
+            family: v["record_family"].as_u64().unwrap_or(0) as u8,
         }
     }
 }
@@ -886,6 +890,14 @@ impl Scenario {
 /// Record of publication k: every 8-byte word carries k (status: k mod 3, the only valid values).
 pub fn tagged(k: i64) -> Rec {
     Rec { as_of_s: k, as_of_ns: k, va_s: k, va_ns: k, bound: k, drift: k as u32, reserved: k as u32, status: (k % 3) as u32 }
+}
+
+/// Record of publication k (0 = the record of a valid initial file) in the scenario's record family.
+pub fn record_for(family: u8, k: i64) -> Rec {
+    match family {
+        0 => tagged(if k == 0 { 1000 } else { k }),
+        _ => Rec { as_of_s: 5000, as_of_ns: 123_456_789, va_s: 6000, va_ns: 0, bound: 77_000_001, drift: 1000, reserved: 0, status: [1u32, 2, 0][(k.rem_euclid(3)) as usize] },
+    }
 }
 
 pub fn valid_file(gen: u16, rec: &Rec) -> Vec<u8> {
@@ -976,7 +988,7 @@ fn record_trace_inner(sc: &Scenario, dir: &Path) -> Result<Trace, String> {
     let _ = std::fs::remove_file(&path);
     match &sc.init {
         Init::Absent => {}
-        Init::Valid(g) => std::fs::write(&path, valid_file(*g, &tagged(1000))).map_err(|e| e.to_string())?,
+        Init::Valid(g) => std::fs::write(&path, valid_file(*g, &record_for(sc.family, 0))).map_err(|e| e.to_string())?,
         Init::Bytes(b) => std::fs::write(&path, b).map_err(|e| e.to_string())?,
     }
     let chunks = chunking(sc.chunks);
@@ -1011,7 +1023,7 @@ fn record_trace_inner(sc: &Scenario, dir: &Path) -> Result<Trace, String> {
             with(|e| e.trace.incs.last_mut().unwrap().new_ok = true);
             for j in 0..*writes {
                 let k = k0 + j as i64;
-                let rec = tagged(k);
+                let rec = record_for(sc.family, k);
                 with(|e| {
                     let begin = e.trace.len();
                     let gen_entry = e.trace.gen_at(begin).unwrap_or(0);
